@@ -34,6 +34,9 @@ ITEMS = {
     "message": ("/t/m.mbox", "/t/m.mbox|/MBOX-MESSAGE/1", None, "virtual"),
     "zipmember": ("/t/z.zip", "/t/z.zip/m.txt", None, "zip"),
     "zipdir": ("/t/z.zip", "/t/z.zip/zd", None, "zip"),
+    # documents produced on the fly (full handler list): their length is not the length of any file
+    "script": ("/t", "/t/run.sh", None, "virtual"),
+    "pyg": ("/t", "/t/gen.pyg", None, "virtual"),
 }
 FILE_BYTES = {"t/a.txt": b"A" * 2500, "t/b.html": worlds.HTML, "t/c.txt.gz": worlds.gz(b"zzz\n" * 1000)}
 
@@ -62,7 +65,9 @@ DECOR_NAMES = (b"Path=./a.txt\nName=Decorated A\nNumb=3\n\nPath=./b.html\nName=D
 
 def build(item, sidecars, handlers, decorated=False):
     """sidecars: {ext: bytes}"""
-    spec = {"t": {"a.txt": FILE_BYTES["t/a.txt"], "b.html": FILE_BYTES["t/b.html"], "c.txt.gz": FILE_BYTES["t/c.txt.gz"], "sub": {"inner.txt": b"i\n"}, "m.mbox": worlds.MBOX}}
+    spec = {"t": {"a.txt": FILE_BYTES["t/a.txt"], "b.html": FILE_BYTES["t/b.html"], "c.txt.gz": FILE_BYTES["t/c.txt.gz"], "sub": {"inner.txt": b"i\n"}, "m.mbox": worlds.MBOX,
+                  "run.sh": ("exec", b"#!/bin/sh\n# a script whose source is much longer than what it prints ........................................\necho short output\n"),
+                  "gen.pyg": ("exec", worlds.PYG)}}
     zmembers = [("m.txt", b"member bytes\n" * 100), ("zd/e.txt", b"e\n")]
     parent, sel, base, kind = ITEMS[item]
     if kind == "zip":
@@ -192,7 +197,7 @@ def judge_item(w, item, sidecars, handlers, decorated=False):
             bad.append((form, "sidecar-blocks", "sidecar blocks %r, the sidecar files say %r" % (got_blocks, want_here)))
         views[form] = mine
     # + form for documents
-    if kind == "file" or item in ("zipmember", "message"):
+    if kind == "file" or item in ("zipmember", "message") or (item in ("script", "pyg") and handlers == "full"):
         r = w.serve(*rig.request("gopherp", sel))
         why = parsers.validate_gopherp(r.out)
         if r.internal_error or why:
@@ -240,7 +245,7 @@ def run(ck):
         allc = contents(2) + [c for c in contents(3) if len(c) == 3 and (c[0] in (2, 3, 6) or c[1] in (2, 6))]
     for handlers in ("full", "default"):
         for item in ITEMS:
-            if handlers == "default" and ITEMS[item][3] == "zip":
+            if handlers == "default" and (ITEMS[item][3] == "zip" or item in ("script", "pyg")):
                 continue
             # every subset of sidecars, fixed content
             for k in range(0, 5):
